@@ -527,239 +527,252 @@ func TestVerifC05Close(t *testing.T) {
 			return 1
 		}
 		lastOK := false
-		for _, e := range evs[1:] {
-			me := sides[e.P]
-			peer := sides[other[e.P]]
-			var err error
-			lastOK = false
-			txeq, relh := -1, int64(-1)
-			pop := func() vMsg {
-				if len(peer.out) == 0 {
-					t.Fatalf("%s: %v: peer queue empty", f, e)
-				}
-				m := peer.out[0]
-				peer.out = peer.out[1:]
-				return m
-			}
-			name := e.A
-			switch e.A {
-			case "Add":
-				var pre [32]byte
-				var expiry uint32
-				key := fmt.Sprintf("%s/%d", e.P, e.X)
-				if lp, ok := lastPre[key]; ok && e.Y == 1 {
-					// equal-hash duplicate: alternately fully identical and with
-					// a different CLTV expiry
-					pre, expiry = lp, lastExp[key]
-					ndup++
-					if ndup%2 == 1 {
-						expiry += 9
+		// a schedule step that the real objects cannot take ends this
+		// behaviour: the recorded prefix holds the deviating step, TLC judges it
+		func() {
+			defer func() {
+				if r := recover(); r != nil {
+					d, is := r.(verifDiverged)
+					if !is {
+						panic(r)
 					}
-				} else {
-					npre++
-					pre[0], pre[1], pre[2] = byte(npre), byte(npre>>8), 0x5a
-					expiry = uint32(500 + (npre*5)%23)
+					t.Logf("VERIF-DIVERGED %s", string(d))
 				}
-				lastPre[key], lastExp[key] = pre, expiry
-				h := sha256.Sum256(pre[:])
-				cc.pres[h] = pre
-				htlc := &lnwire.UpdateAddHTLC{
-					ID: me.lc.updateLogs.Local.htlcCounter, PaymentHash: h,
-					Amount: lnwire.MilliSatoshi(e.X), Expiry: expiry,
-				}
-				_, err = me.lc.AddHTLC(htlc, nil)
-				if err == nil {
-					me.out = append(me.out, vMsg{kind: "add", add: htlc})
-					cc.exps[fmt.Sprintf("%s/%d", e.P, htlc.ID)] = int64(expiry)
-				} else if vIsConstraintErr(err) {
-					name = "AddRejected"
-				}
-			case "Resolve":
-				var pd *paymentDescriptor
-				for x := me.lc.updateLogs.Remote.Front(); x != nil; x = x.Next() {
-					if x.Value.isAdd() && x.Value.HtlcIndex == uint64(e.X) {
-						pd = x.Value
+			}()
+			for _, e := range evs[1:] {
+				me := sides[e.P]
+				peer := sides[other[e.P]]
+				var err error
+				lastOK = false
+				txeq, relh := -1, int64(-1)
+				pop := func() vMsg {
+					if len(peer.out) == 0 {
+						panic(verifDiverged(fmt.Sprintf("%s: %v: peer queue empty", f, e)))
 					}
+					m := peer.out[0]
+					peer.out = peer.out[1:]
+					return m
 				}
-				if pd == nil {
-					err = fmt.Errorf("htlc %d not in remote log", e.X)
-					break
-				}
-				if e.Y == 1 {
-					pre := cc.pres[pd.RHash]
-					err = me.lc.SettleHTLC(pre, pd.HtlcIndex, nil, nil, nil)
+				name := e.A
+				switch e.A {
+				case "Add":
+					var pre [32]byte
+					var expiry uint32
+					key := fmt.Sprintf("%s/%d", e.P, e.X)
+					if lp, ok := lastPre[key]; ok && e.Y == 1 {
+						// equal-hash duplicate: alternately fully identical and with
+						// a different CLTV expiry
+						pre, expiry = lp, lastExp[key]
+						ndup++
+						if ndup%2 == 1 {
+							expiry += 9
+						}
+					} else {
+						npre++
+						pre[0], pre[1], pre[2] = byte(npre), byte(npre>>8), 0x5a
+						expiry = uint32(500 + (npre*5)%23)
+					}
+					lastPre[key], lastExp[key] = pre, expiry
+					h := sha256.Sum256(pre[:])
+					cc.pres[h] = pre
+					htlc := &lnwire.UpdateAddHTLC{
+						ID: me.lc.updateLogs.Local.htlcCounter, PaymentHash: h,
+						Amount: lnwire.MilliSatoshi(e.X), Expiry: expiry,
+					}
+					_, err = me.lc.AddHTLC(htlc, nil)
 					if err == nil {
-						me.out = append(me.out, vMsg{kind: "settle", id: pd.HtlcIndex, pre: pre})
+						me.out = append(me.out, vMsg{kind: "add", add: htlc})
+						cc.exps[fmt.Sprintf("%s/%d", e.P, htlc.ID)] = int64(expiry)
+					} else if vIsConstraintErr(err) {
+						name = "AddRejected"
 					}
-				} else {
-					err = me.lc.FailHTLC(pd.HtlcIndex, []byte("x"), nil, nil, nil)
-					if err == nil {
-						me.out = append(me.out, vMsg{kind: "fail", id: pd.HtlcIndex})
+				case "Resolve":
+					var pd *paymentDescriptor
+					for x := me.lc.updateLogs.Remote.Front(); x != nil; x = x.Next() {
+						if x.Value.isAdd() && x.Value.HtlcIndex == uint64(e.X) {
+							pd = x.Value
+						}
 					}
-				}
-			case "Sign":
-				var ns *NewCommitState
-				ns, err = me.lc.SignNextCommitment(ctxb)
-				if err == nil {
-					me.out = append(me.out, vMsg{kind: "sig", sigs: ns.CommitSigs})
-				}
-			case "RecvAdd":
-				_, err = me.lc.ReceiveHTLC(pop().add)
-			case "RecvRes":
-				m := pop()
-				if m.kind == "settle" {
-					err = me.lc.ReceiveHTLCSettle(m.pre, m.id)
-				} else {
-					err = me.lc.ReceiveFailHTLC(m.id, []byte("x"))
-				}
-			case "RecvSig":
-				err = me.lc.ReceiveNewCommitment(pop().sigs)
-				if err == nil {
-					mine := me.lc.commitChains.Local.tip().txn
-					theirs := peer.lc.commitChains.Remote.tip().txn
-					txeq = 0
-					if mine != nil && theirs != nil && mine.TxHash() == theirs.TxHash() {
-						txeq = 1
-					}
-				}
-			case "Revoke":
-				var rev *lnwire.RevokeAndAck
-				rev, _, _, err = me.lc.RevokeCurrentCommitment()
-				if err == nil {
-					me.out = append(me.out, vMsg{kind: "rev", rev: rev})
-					relh = vRelHeight(me.lc, rev)
-				}
-			case "RecvRev":
-				_, _, err = me.lc.ReceiveRevocation(pop().rev)
-			case "UpdateFee":
-				err = me.lc.UpdateFee(chainfee.SatPerKWeight(e.X))
-				if err == nil {
-					me.out = append(me.out, vMsg{kind: "fee", fee: int64(e.X)})
-				}
-			case "RecvFee":
-				err = me.lc.ReceiveUpdateFee(chainfee.SatPerKWeight(pop().fee))
-			case "Disconnect":
-				for _, s := range sides {
-					var nlc *LightningChannel
-					if nlc, err = c5Reload(s.lc); err != nil {
+					if pd == nil {
+						err = fmt.Errorf("htlc %d not in remote log", e.X)
 						break
 					}
-					s.lc = nlc
-					s.out = nil
-				}
-			case "StaleTouch":
-				// status update through a stale handle (see channel_exec_test.go): the
-				// model leaves everything unchanged; not exercised by this executor
-			case "SoftDisconnect":
-				// API-level event, never generated for this executor's profiles
-			case "SendReest":
-				var m *lnwire.ChannelReestablish
-				m, err = me.lc.channelState.ChanSyncMsg()
-				if err == nil {
-					if me.lc.channelState.ChanType.IsTaproot() {
-						txid := me.lc.channelState.FundingOutpoint.Hash
-						var nonce lnwire.Musig2Nonce
-						if m.LocalNonces.IsSome() {
-							nonce = m.LocalNonces.UnsafeFromSome().NoncesMap[txid]
-						} else {
-							nonce = m.LocalNonce.UnwrapOrFailV(t)
+					if e.Y == 1 {
+						pre := cc.pres[pd.RHash]
+						err = me.lc.SettleHTLC(pre, pd.HtlcIndex, nil, nil, nil)
+						if err == nil {
+							me.out = append(me.out, vMsg{kind: "settle", id: pd.HtlcIndex, pre: pre})
 						}
-						me.lc.pendingVerificationNonce = &musig2.Nonces{PubNonce: nonce}
+					} else {
+						err = me.lc.FailHTLC(pd.HtlcIndex, []byte("x"), nil, nil, nil)
+						if err == nil {
+							me.out = append(me.out, vMsg{kind: "fail", id: pd.HtlcIndex})
+						}
 					}
-					me.out = append(me.out, vMsg{kind: "reest", reest: m})
-				}
-			case "RecvReest":
-				var msgs []lnwire.Message
-				msgs, _, _, err = me.lc.ProcessChanSyncMsg(ctxb, pop().reest)
-				for _, x := range msgs {
-					switch mm := x.(type) {
-					case *lnwire.UpdateAddHTLC:
-						me.out = append(me.out, vMsg{kind: "add", add: mm})
-					case *lnwire.UpdateFulfillHTLC:
-						me.out = append(me.out, vMsg{kind: "settle", id: mm.ID, pre: mm.PaymentPreimage})
-					case *lnwire.UpdateFailHTLC:
-						me.out = append(me.out, vMsg{kind: "fail", id: mm.ID})
-					case *lnwire.UpdateFee:
-						me.out = append(me.out, vMsg{kind: "fee", fee: int64(mm.FeePerKw)})
-					case *lnwire.CommitSig:
-						me.out = append(me.out, vMsg{kind: "sig", sigs: &CommitSigs{
-							CommitSig: mm.CommitSig, HtlcSigs: mm.HtlcSigs, PartialSig: mm.PartialSig}})
-					case *lnwire.RevokeAndAck:
-						me.out = append(me.out, vMsg{kind: "rev", rev: mm})
-					default:
-						me.out = append(me.out, vMsg{kind: fmt.Sprintf("%T", x)})
+				case "Sign":
+					var ns *NewCommitState
+					ns, err = me.lc.SignNextCommitment(ctxb)
+					if err == nil {
+						me.out = append(me.out, vMsg{kind: "sig", sigs: ns.CommitSigs})
 					}
+				case "RecvAdd":
+					_, err = me.lc.ReceiveHTLC(pop().add)
+				case "RecvRes":
+					m := pop()
+					if m.kind == "settle" {
+						err = me.lc.ReceiveHTLCSettle(m.pre, m.id)
+					} else {
+						err = me.lc.ReceiveFailHTLC(m.id, []byte("x"))
+					}
+				case "RecvSig":
+					err = me.lc.ReceiveNewCommitment(pop().sigs)
+					if err == nil {
+						mine := me.lc.commitChains.Local.tip().txn
+						theirs := peer.lc.commitChains.Remote.tip().txn
+						txeq = 0
+						if mine != nil && theirs != nil && mine.TxHash() == theirs.TxHash() {
+							txeq = 1
+						}
+					}
+				case "Revoke":
+					var rev *lnwire.RevokeAndAck
+					rev, _, _, err = me.lc.RevokeCurrentCommitment()
+					if err == nil {
+						me.out = append(me.out, vMsg{kind: "rev", rev: rev})
+						relh = vRelHeight(me.lc, rev)
+					}
+				case "RecvRev":
+					_, _, err = me.lc.ReceiveRevocation(pop().rev)
+				case "UpdateFee":
+					err = me.lc.UpdateFee(chainfee.SatPerKWeight(e.X))
+					if err == nil {
+						me.out = append(me.out, vMsg{kind: "fee", fee: int64(e.X)})
+					}
+				case "RecvFee":
+					err = me.lc.ReceiveUpdateFee(chainfee.SatPerKWeight(pop().fee))
+				case "Disconnect":
+					for _, s := range sides {
+						var nlc *LightningChannel
+						if nlc, err = c5Reload(s.lc); err != nil {
+							break
+						}
+						s.lc = nlc
+						s.out = nil
+					}
+				case "StaleTouch":
+					// status update through a stale handle (see channel_exec_test.go): the
+					// model leaves everything unchanged; not exercised by this executor
+				case "SoftDisconnect":
+					// API-level event, never generated for this executor's profiles
+				case "SendReest":
+					var m *lnwire.ChannelReestablish
+					m, err = me.lc.channelState.ChanSyncMsg()
+					if err == nil {
+						if me.lc.channelState.ChanType.IsTaproot() {
+							txid := me.lc.channelState.FundingOutpoint.Hash
+							var nonce lnwire.Musig2Nonce
+							if m.LocalNonces.IsSome() {
+								nonce = m.LocalNonces.UnsafeFromSome().NoncesMap[txid]
+							} else {
+								nonce = m.LocalNonce.UnwrapOrFailV(t)
+							}
+							me.lc.pendingVerificationNonce = &musig2.Nonces{PubNonce: nonce}
+						}
+						me.out = append(me.out, vMsg{kind: "reest", reest: m})
+					}
+				case "RecvReest":
+					var msgs []lnwire.Message
+					msgs, _, _, err = me.lc.ProcessChanSyncMsg(ctxb, pop().reest)
+					for _, x := range msgs {
+						switch mm := x.(type) {
+						case *lnwire.UpdateAddHTLC:
+							me.out = append(me.out, vMsg{kind: "add", add: mm})
+						case *lnwire.UpdateFulfillHTLC:
+							me.out = append(me.out, vMsg{kind: "settle", id: mm.ID, pre: mm.PaymentPreimage})
+						case *lnwire.UpdateFailHTLC:
+							me.out = append(me.out, vMsg{kind: "fail", id: mm.ID})
+						case *lnwire.UpdateFee:
+							me.out = append(me.out, vMsg{kind: "fee", fee: int64(mm.FeePerKw)})
+						case *lnwire.CommitSig:
+							me.out = append(me.out, vMsg{kind: "sig", sigs: &CommitSigs{
+								CommitSig: mm.CommitSig, HtlcSigs: mm.HtlcSigs, PartialSig: mm.PartialSig}})
+						case *lnwire.RevokeAndAck:
+							me.out = append(me.out, vMsg{kind: "rev", rev: mm})
+						default:
+							me.out = append(me.out, vMsg{kind: fmt.Sprintf("%T", x)})
+						}
+					}
+				default:
+					t.Fatalf("unknown action %q", e.A)
 				}
-			default:
-				t.Fatalf("unknown action %q", e.A)
-			}
 
-			tl := vLine{vEv: e, St: map[string]vParty{}, Sh: map[string]vParty{}, SigOk: map[string]int{},
-				TxEq: txeq, RelH: relh}
-			tl.A = name
-			if err != nil && name != "AddRejected" {
-				tl.Err = err.Error()
-			}
-			// close checks: every k-th step everything, otherwise whoever
-			// holds a pending remote commitment
-			kth := every <= 1 || (nsteps+int(verifkit.Seed()))%every == 0
-			pending := map[string]bool{}
-			for n, s := range sides {
-				pending[n] = s.lc.commitChains.Remote.hasUnackedCommitment()
-			}
-			shadows := map[string]*LightningChannel{}
-			for n, s := range sides {
-				tl.St[n] = vProject(s.lc, s.out)
-				tl.SigOk[n] = -1
-				sh, rerr := c5Reload(s.lc)
-				if rerr != nil {
-					tl.ShErr = n + ": " + rerr.Error()
-					tl.Sh[n] = vParty{Net: []string{}, LC: []vCommit{}, RC: []vCommit{}, L: []vEntry{}, R: []vEntry{}}
-					continue
+				tl := vLine{vEv: e, St: map[string]vParty{}, Sh: map[string]vParty{}, SigOk: map[string]int{},
+					TxEq: txeq, RelH: relh}
+				tl.A = name
+				if err != nil && name != "AddRejected" {
+					tl.Err = err.Error()
 				}
-				shadows[n] = sh
-				tl.Sh[n] = vProject(sh, nil)
-				okv, msg := vSignedCommitOk(sh)
-				tl.SigOk[n] = okv
-				if okv == 0 && tl.ShErr == "" {
-					tl.ShErr = n + ": " + msg
+				// close checks: every k-th step everything, otherwise whoever
+				// holds a pending remote commitment
+				kth := every <= 1 || (nsteps+int(verifkit.Seed()))%every == 0
+				pending := map[string]bool{}
+				for n, s := range sides {
+					pending[n] = s.lc.commitChains.Remote.hasUnackedCommitment()
 				}
-			}
-			out.Emit(tl)
-			nsteps++
-			if err != nil {
-				t.Logf("%s: step %v: %v", filepath.Base(f), e, err)
-				break
-			}
-			if name == "AddRejected" {
-				break
-			}
-			for _, n := range []string{"A", "B"} {
-				sh := shadows[n]
-				if sh == nil || !(kth || pending[n]) {
-					continue
+				shadows := map[string]*LightningChannel{}
+				for n, s := range sides {
+					tl.St[n] = vProject(s.lc, s.out)
+					tl.SigOk[n] = -1
+					sh, rerr := c5Reload(s.lc)
+					if rerr != nil {
+						tl.ShErr = n + ": " + rerr.Error()
+						tl.Sh[n] = vParty{Net: []string{}, LC: []vCommit{}, RC: []vCommit{}, L: []vEntry{}, R: []vEntry{}}
+						continue
+					}
+					shadows[n] = sh
+					tl.Sh[n] = vProject(sh, nil)
+					okv, msg := vSignedCommitOk(sh)
+					tl.SigOk[n] = okv
+					if okv == 0 && tl.ShErr == "" {
+						tl.ShErr = n + ": " + msg
+					}
 				}
-				peerLive := sides[other[n]].lc
-				for _, w := range []int{1, 2} {
-					if ln, ok := cc.closeRemote(n, w, sh, peerLive); ok {
-						out.Emit(ln)
+				out.Emit(tl)
+				nsteps++
+				if err != nil {
+					t.Logf("%s: step %v: %v", filepath.Base(f), e, err)
+					break
+				}
+				if name == "AddRejected" {
+					break
+				}
+				for _, n := range []string{"A", "B"} {
+					sh := shadows[n]
+					if sh == nil || !(kth || pending[n]) {
+						continue
+					}
+					peerLive := sides[other[n]].lc
+					for _, w := range []int{1, 2} {
+						if ln, ok := cc.closeRemote(n, w, sh, peerLive); ok {
+							out.Emit(ln)
+							nchecks++
+						}
+					}
+					if kth && sh.channelState.LocalCommitment.CommitHeight > 0 {
+						out.Emit(cc.closeLocal(n, sh))
 						nchecks++
 					}
 				}
-				if kth && sh.channelState.LocalCommitment.CommitHeight > 0 {
-					out.Emit(cc.closeLocal(n, sh))
-					nchecks++
+				// ForceClose() of the LIVE object in the one window where its memory is
+				// ahead of the database: a new commitment has been received and verified
+				// but the old one is not revoked yet.  What must be broadcast (and what
+				// the summary must resolve) is still the durable commitment disk[p].lc.
+				if name == "RecvSig" {
+					nlive += liveClose(me)
 				}
+				lastOK = true
 			}
-			// ForceClose() of the LIVE object in the one window where its memory is
-			// ahead of the database: a new commitment has been received and verified
-			// but the old one is not revoked yet.  What must be broadcast (and what
-			// the summary must resolve) is still the durable commitment disk[p].lc.
-			if name == "RecvSig" {
-				nlive += liveClose(me)
-			}
-			lastOK = true
-		}
+		}()
 		// ... and of both live objects where the behaviour ends, whatever state that is
 		if lastOK {
 			for _, n := range []string{"A", "B"} {
